@@ -43,6 +43,67 @@ CHECKS = {
         "design_ref": "DESIGN.md §5 C02",
         "level_text": "The library's Ok/Err is compared with an independent executable statement of the acceptance policy on every input, in both directions; boundary cases additionally carry a verdict known by construction that must agree with both. A disagreement between construction and reference makes the run inconclusive (harness defect), never a violation.",
     },
+    "C03": {
+        "title": "accepted packets read back faithfully via the iterators",
+        "flavours": BOTH,
+        "level": "exploration",
+        "technique": "runtime monitoring: reference-decoder oracle on every iterator stop and accessor, panic/budget monitors, no-mutation monitor",
+        "rule": "G-valid packets (message known by construction: any counts, pointer layouts incl. chains to 16, pointers into rdata names / opaque rdata / the header, all record types, OPT absent/first/middle/last) plus accepted mutants; every walk (question, answer, authority, additional with OPT skipped and included, EDNS options) compared stop by stop; distinct = distinct (records per section bucket, OPT position, type set, deepest chain, pointer-into-header)",
+        "floors": {"quick": {"accepted": 200000, "accessor_comparisons": 5000000, "opt:Middle": 1000, "opt:First": 1000, "pointer_into_header": 1000},
+                   "thorough": {"accepted": 2000000}},
+        "assumptions": COMMON_ASSUME,
+        "design_ref": "DESIGN.md §5 C03",
+        "level_text": "Every accepted packet is walked with every iterator flavour and every accessor result is compared with an independent decoding of the bytes; panics, step-budget trips and byte changes are violations.",
+    },
+    "C04": {
+        "title": "header, question and EDNS summaries equal what the bytes say",
+        "flavours": BOTH,
+        "level": "exploration",
+        "technique": "runtime monitoring: getter results vs values decoded independently from the bytes; exhaustive sweep of the 16-bit flag word",
+        "rule": "all 65536 flag words x {no OPT, OPT+DO, OPT without DO, OPT with odd fixed fields} on a fixed body (exhaustive), plus G-valid packets with arbitrary OPT fields and question names (incl. via header pointers); question getters called in 6 different orders (cached and uncached paths); distinct = (flag word, variant) for the sweep and (question shape, OPT position, QR, header-pointer, call order) otherwise",
+        "exhaustive": {"quick": False, "thorough": False},
+        "floors": {"quick": {"accepted": 500000, "getter_comparisons": 5000000, "with_opt": 50000, "pointer_into_header": 1000},
+                   "thorough": {"accepted": 2000000}},
+        "assumptions": COMMON_ASSUME,
+        "design_ref": "DESIGN.md §5 C04",
+        "level_text": "Every getter is compared with the value computed from the raw bytes by the model; the flag-word dimension is swept exhaustively, the rest is explored.",
+    },
+    "C05": {
+        "title": "decompression keeps the message; output pointer-free, valid, stable",
+        "flavours": BOTH,
+        "level": "exploration",
+        "technique": "runtime monitoring: output compared byte-for-byte with the canonical pointer-free encoding of the independently decoded message; idempotence and offset-translation oracles",
+        "rule": "G-valid packets with all name-bearing types in all sections and every pointer layout, plus accepted mutants; for each, uncompress must equal encode_literal(decode(x)), be accepted, be a fixed point, and every record-boundary offset (start of each record, end of packet) must translate to the same boundary; distinct = distinct packet shapes (as C03)",
+        "floors": {"quick": {"uncompressed": 150000, "offset_translations": 500000, "idempotent": 150000, "pointer_into_opaque_rdata": 500, "chain>=8": 500},
+                   "thorough": {"uncompressed": 1500000}},
+        "assumptions": COMMON_ASSUME,
+        "design_ref": "DESIGN.md §5 C05",
+        "level_text": "The only admissible output is the canonical pointer-free encoding of the decoded message, so the oracle is byte-exact; held on the explored packets only.",
+    },
+    "C06": {
+        "title": "compression keeps the message, stays valid, never grows",
+        "flavours": BOTH,
+        "level": "exploration",
+        "technique": "runtime monitoring: decoded-message equality (names up to case, question exact), validity, size and round-trip oracles over random and stress families",
+        "rule": "pointer-free G-valid packets over small label alphabets, outputs of decompression, and 10 stress families (nesting deeper than 16, more than 32 distinct suffixes, suffixes longer than 127 bytes, names beyond offset 16383, mixed-case duplicates, OPT first/middle, a name shortened before a later suffix is first remembered, all rdata name types, many identical names); distinct = distinct packet shapes / (family, size buckets)",
+        "floors": {"quick": {"compressed": 100000, "shrunk": 50000, "roundtrip_ok": 100000, "stress:nested-suffixes>16": 500, "stress:distinct-suffixes>32": 500, "stress:suffix>127": 500, "stress:names-beyond-16383": 500, "stress:opt-middle": 500},
+                   "thorough": {"compressed": 1000000}},
+        "assumptions": COMMON_ASSUME,
+        "design_ref": "DESIGN.md §5 C06",
+        "level_text": "Compression has many correct outputs, so the oracle checks the stated relation (same message up to case, accepted, not longer, round-trips) on every explored input, with stress families for each clause of the quantifier.",
+    },
+    "C07": {
+        "title": "renaming rewrites exactly the matching names",
+        "flavours": BOTH,
+        "level": "exploration",
+        "technique": "runtime monitoring: abstract rename semantics applied to the decoded message vs decoding of the library's output; error/atomicity oracle on the packet-level wrapper",
+        "rule": "G-valid packets over small alphabets x (target, source, exact|suffix) drawn from the packet's own names: whole names, suffixes at every depth, partial-label near-misses, case variants, different label splits, absent names, identity, targets growing names past 255; plus the C06 stress messages; distinct = (OPT position, name-bearing type set, compressed?, case bucket)",
+        "floors": {"quick": {"renamed": 100000, "with_matches": 30000, "expected_overflow": 300, "identity_renames": 5000, "wrapper_calls": 100000},
+                   "thorough": {"renamed": 1000000}},
+        "assumptions": COMMON_ASSUME + ["source and target are well-formed pointer-free non-root names under the parser's character policy, as the property requires"],
+        "design_ref": "DESIGN.md §5 C07",
+        "level_text": "The expected message is computed by a 30-line abstract rename on the decoded input; the library's output must decode to it (names up to case), be accepted, fail exactly when a name would exceed 255, and identity renames must be no-ops.",
+    },
     "C18": {
         "title": "validation work is linear in the packet size",
         "flavours": {"quick": ["release"], "thorough": ["release", "checked"]},
